@@ -90,6 +90,11 @@ pub struct Exec {
     eut_sender_dc: HashMap<String, (u32, u32)>,
     peer_link_name: HashMap<(u16, u32), String>,
     gates: HashMap<String, std::sync::Arc<fe2o3_amqp::verif::Gate>>,
+    /// call ids of send_batchable calls, in order
+    batch_calls: Vec<u64>,
+    calls_scope: HashMap<u64, String>,
+    /// await_outcome call id -> the send_batchable call it resolves
+    await_of: HashMap<u64, u64>,
 }
 
 fn class_of(dbg: &str) -> String {
@@ -141,7 +146,7 @@ impl Exec {
         Exec { log: vec![], t0: tokio::time::Instant::now(), side_listener: listener, peer: None, buf: vec![], eof_logged: false, sh: Shifts::default(), conn: None, sessions: HashMap::new(),
                senders: HashMap::new(), receivers: HashMap::new(), held: HashMap::new(), futs: HashMap::new(), calls: vec![], next_call: 1, roles: HashMap::new(),
                pending_begins: vec![], eut_channel: HashMap::new(), eut_dids: HashMap::new(), eut_frames: HashMap::new(), eut_noi: HashMap::new(),
-               out_progress: HashMap::new(), sent_queue: HashMap::new(), link_of_handle: HashMap::new(), pending_attach: vec![], msg_shapes: HashMap::new(), names: HashMap::new(), eut_sender_dc: HashMap::new(), peer_link_name: HashMap::new(), gates: HashMap::new() }
+               out_progress: HashMap::new(), sent_queue: HashMap::new(), link_of_handle: HashMap::new(), pending_attach: vec![], msg_shapes: HashMap::new(), names: HashMap::new(), eut_sender_dc: HashMap::new(), peer_link_name: HashMap::new(), gates: HashMap::new(), batch_calls: vec![], calls_scope: HashMap::new(), await_of: HashMap::new() }
     }
     fn t(&self) -> u64 { tokio::time::Instant::now().duration_since(self.t0).as_millis() as u64 }
     fn emit(&mut self, mut j: J) {
@@ -249,8 +254,8 @@ impl Exec {
             if self.calls[i].h.is_finished() {
                 let c = self.calls.remove(i);
                 match c.h.await {
-                    Ok((res, back)) => { self.put_back(back); let lname = c.scope.strip_prefix("l:").map(|l| self.names.get(l).cloned().unwrap_or(l.to_string())).unwrap_or_default(); self.emit(json!({"ev": "ApiRet", "call": c.id, "op": c.op, "scope": c.scope, "lname": lname, "res": res})); }
-                    Err(e) => { let p = e.is_panic(); self.emit(json!({"ev": "ApiRet", "call": c.id, "op": c.op, "scope": c.scope, "lname": "", "res": {"ok": false, "class": if p { "PANIC" } else { "Cancelled" }, "cond": "", "dbg": ""}})); }
+                    Ok((res, back)) => { self.put_back(back); let lname = c.scope.strip_prefix("l:").map(|l| self.names.get(l).cloned().unwrap_or(l.to_string())).unwrap_or_default(); let of = self.await_of.get(&c.id).copied().unwrap_or(0); self.emit(json!({"ev": "ApiRet", "call": c.id, "op": c.op, "scope": c.scope, "lname": lname, "of": of, "res": res})); }
+                    Err(e) => { let p = e.is_panic(); self.emit(json!({"ev": "ApiRet", "call": c.id, "op": c.op, "scope": c.scope, "lname": "", "of": 0, "res": {"ok": false, "class": if p { "PANIC" } else { "Cancelled" }, "cond": "", "dbg": ""}})); }
                 }
             } else { i += 1; }
         }
@@ -288,7 +293,11 @@ impl Exec {
         let id = self.next_call;
         self.next_call += 1;
         let lname = scope.strip_prefix("l:").map(|l| self.names.get(l).cloned().unwrap_or(l.to_string())).unwrap_or_default();
-        self.emit(json!({"ev": "ApiCall", "call": id, "op": op, "scope": scope, "lname": lname, "args": args}));
+        let of = args.get("of").and_then(|x| x.as_u64()).unwrap_or(0);
+        if of > 0 { self.await_of.insert(id, of); }
+        if op == "send_batchable" { self.batch_calls.push(id); }
+        self.calls_scope.insert(id, scope.to_string());
+        self.emit(json!({"ev": "ApiCall", "call": id, "op": op, "scope": scope, "lname": lname, "of": of, "args": args}));
         self.calls.push(Call { id, op: op.to_string(), scope: scope.to_string(), h, cancel });
     }
 
@@ -472,10 +481,12 @@ impl Exec {
                 self.start(if batch { "send_batchable" } else { "send" }, &format!("l:{l}"), json!({"m": m, "len": len, "settled": settled.map(|b| if b { "t" } else { "f" }).unwrap_or("none"), "shape": shape}), Some(ctx), h);
             }
             "AAwaitOutcome" => {
-                let id = e["call"].as_u64().unwrap();
+                let id = match e.get("nth").and_then(|x| x.as_u64()) { Some(n) => match self.batch_calls.get(n as usize) { Some(c) => *c, None => return self.skip(e, "no such batchable send") }, None => e["call"].as_u64().unwrap_or(0) };
                 let Some(f) = self.futs.remove(&id) else { return self.skip(e, "no pending outcome"); };
+                // the awaited send belongs to a link: log it with that link's name
+                let lscope = self.calls_scope.get(&id).cloned().unwrap_or_default();
                 let h = tokio::spawn(async move { match f.await { Ok(o) => (json!({"ok": true, "class": "", "cond": "", "dbg": "", "outcome": class_of(&format!("{o:?}")).to_lowercase()}), Back::None), Err(e) => (err_json(&e), Back::None) } });
-                self.start("await_outcome", &format!("c:{id}"), json!({"of": id}), None, h);
+                self.start("await_outcome", &lscope, json!({"of": id}), None, h);
             }
             "ARecv" => {
                 let l = e["l"].as_str().unwrap().to_string();
